@@ -458,6 +458,14 @@ def roundtrip_histories(hid0, rng, tmpdir, thorough):
                 o.to_csv(fn, **kw_to)
                 return proj(cls.from_csv(fn, **kw_from))
             ev.append(same("from_csv(to_csv(cM), cM)", proj(o), csv_rt))
+            if clsname == "StandardGeneticMap":
+                # matching unit options on both sides: positions written in Morgans are read as Morgans
+                um = {"vrnt_genpos_units": "M"}
+                ev.append(same("from_pandas(to_pandas(M), M)", proj(o), lambda: proj(cls.from_pandas(o.to_pandas(**um), **um))))
+                def csv_rt_m():
+                    o.to_csv(fn, **um)
+                    return proj(cls.from_csv(fn, **um))
+                ev.append(same("from_csv(to_csv(M), M)", proj(o), csv_rt_m))
             ev.append(same("copy.deepcopy", proj(o), lambda: proj(copy.deepcopy(o))))
             # copies must BEHAVE like the source too: interpolation at positions between / outside the markers and on an
             # absent chromosome, also when the source's spline is older than its marker arrays (markers removed in place)
